@@ -211,12 +211,19 @@ func (w *World) exec(m *myconn, q string) *result {
 
 func (w *World) finishLocked(m *myconn, ctx *StmtCtx, r *result, id int64, fa FaultAction) {
 	ctx.Errno = r.errno
+	ctx.Note = r.note
+	if fa.Kind == "delay" {
+		ctx.Delayed = fa.Delay
+	}
+	ctx.ReplyDropped = fa.DropReply
 	for _, f := range w.AfterStmt {
 		f(w, ctx)
 	}
 	res := "ok"
 	if r.errno != 0 {
 		res = r.msg
+	} else if r.note != "" {
+		res = r.note
 	}
 	w.LogLocked(Event{Kind: "sql", Phase: "ret", Who: m.caller, Host: m.host, Class: ctx.Class, Res: res, Err: r.errno, Mut: ctx.Mut, Occ: ctx.Occ, ID: id})
 	if fa.After != nil {
@@ -297,7 +304,9 @@ func (w *World) apply(m *myconn, s *Server, c *StmtCtx, id int64) *result {
 				"Last_Error", "Retrieved_Gtid_Set", "Executed_Gtid_Set", "Last_IO_Errno", "Last_IO_Error", "Last_SQL_Errno", "Seconds_Behind_Master", "Auto_Position"}
 		}
 		if s.Source == "" {
-			return rs(cols)
+			r := rs(cols)
+			r.note = "none"
+			return r
 		}
 		io := "No"
 		if s.IORun && s.LastIOErrno == 0 {
@@ -323,8 +332,10 @@ func (w *World) apply(m *myconn, s *Server, c *StmtCtx, id int64) *result {
 		if s.LastIOErrno != 0 {
 			lastIOErr = fmt.Sprintf("injected IO error %d", s.LastIOErrno)
 		}
-		return rs(cols, []any{s.Source, 3306, "mysql-bin-log.000001", w.readPosLocked(s), io, yn(sqlRun), lastErr,
+		r := rs(cols, []any{s.Source, 3306, "mysql-bin-log.000001", w.readPosLocked(s), io, yn(sqlRun), lastErr,
 			s.Retrieved.String(), s.Executed.String(), s.LastIOErrno, lastIOErr, s.LastSQLErrno, lag, 1})
+		r.note = fmt.Sprintf("src=%s io=%s sql=%s ioerr=%d sqlerr=%d", s.Source, io, yn(sqlRun), s.LastIOErrno, s.LastSQLErrno)
+		return r
 	case "set_ro", "set_ro_nosuper":
 		super := c.Class == "set_ro"
 		applyRO := func() {
